@@ -250,6 +250,16 @@ def measure(tier, seed):
         sb = (math.pi**2 / 90) * (3 + 7.0 / 8.0 * 12) * T**4
         worst = min(worst, quant.digits(abs(v) / sb))
     evs.append({"e": "Obs", "kind": "potential", "pot": "heavySuppressed", "n": 2, "d": worst})
+    # ... and beyond the upper end of the tables, with the extrapolation modes the constructor itself selects
+    worst = 16
+    for T in (0.3, 50.0):
+        for x in (1000.5, 2000.0, 1e4, 1e6):
+            for nB, nF in ((3, 0), (0, 12)):
+                p = Pot([x * T * T], [x * T * T], [nB], [nF], useDefaultInterpolation=True)
+                v = float(p.evaluate(None, T))
+                sb = (math.pi**2 / 90) * (nB + 7.0 / 8.0 * nF) * T**4
+                worst = min(worst, quant.digits(abs(v) / sb) if np.isfinite(v) else -1)
+    evs.append({"e": "Obs", "kind": "potential", "pot": "heavyBeyondTable", "n": 16, "d": worst})
     for end, xe in (("low", -20.0), ("high", 1000.0)):
         for mode in ("NONE", "CONSTANT", "FUNCTION"):
             for tab in tables.values():
@@ -362,7 +372,7 @@ def measure(tier, seed):
 
 
 def run(chk, tier, seed):
-    chk.add_model(tlc.run_model("ThermalInt.tla", "ThermalInt.cfg"), label="obligation matrix (61 cells), all orders of up to two discharges")
+    chk.add_model(tlc.run_model("ThermalInt.tla", "ThermalInt.cfg"), label="obligation matrix (62 cells), all orders of up to two discharges")
     try:
         evs = measure(tier, seed)
     except Exception as ex:
@@ -377,7 +387,7 @@ def run(chk, tier, seed):
     chk.add_validation(vr, [tr])
     chk.extra.update(digits_by_cell={(ev.get("J", ev.get("pot", ev["kind"])) + ":" + str(ev.get("what", ev.get("end", ev.get("opt", ""))) ) + str(ev.get("mode", ev.get("sign", "")))): ev["d"] for ev in evs if ev["e"] == "Obs"},
                      checker_cmd="tlc ThermalInt.tla ; tlc TraceThermalInt.tla")
-    chk.rule = ("cells of the obligation matrix (32 integral cells, 29 potential cells); rows of both shipped tables compared with the direct quadrature "
+    chk.rule = ("cells of the obligation matrix (32 integral cells, 30 potential cells); rows of both shipped tables compared with the direct quadrature "
                 "(all 2 x 10000 rows in both tiers; between the rows: every 40th interval in quick, every interval in thorough), Bessel series on 12/60 points in (0.05, 900]; "
                 "evaluations = number of compared points")
     chk.assumptions += ["Bessel series -sum x K2(n sqrt x)/n^2 as independent representation for x > 0 (scipy.special.kn)",
